@@ -1,4 +1,5 @@
-"""Replay / bounded stand-in for C04: the shared server-protocol scenario bank (replay/server_bank.py)."""
+"""Replay / bounded stand-in for C04: the shared server-protocol scenario bank (replay/server_bank.py),
+then connection histories with client certificates on the PyOpenSSL back end (replay/tls_bank.py: bank_c04)."""
 import sys
 
 sys.path.insert(0, "/verif")
@@ -6,4 +7,12 @@ from replay.common import load, done  # noqa: E402
 from replay import server_bank  # noqa: E402
 
 p = load()
-done(**server_bank.bank(focus="C04"))
+r = server_bank.bank(focus="C04")
+if not r.get("confirmed"):
+    from replay import tls_bank  # noqa: E402
+    r2 = tls_bank.bank(focus="C04")     # PyOpenSSL back end: which certificate's fingerprint reaches the chain, over connection histories
+    if r2.get("confirmed"):
+        r = r2
+    else:
+        r["tried"] = r.get("tried", 0) + r2.get("tried", 0)
+done(**r)
